@@ -2,6 +2,7 @@
 from .. import core, parsefam
 
 AB = [97, 98]
+ABCD = [97, 98, 99, 100]
 
 
 def run(r):
@@ -13,14 +14,18 @@ def run(r):
                 ("F2", 3, AB, 8, list(range(8)), {}),
                 ("NM", 3, AB, 8, list(range(8)), {}),
                 ("F3", 3, AB, 32, [(s + i) % 32 for i in range(6)], {}),
-                ("F1", 4, AB, 64, [(s + i) % 64 for i in range(4)], {"maxcalls": 900})]
+                ("F1", 4, AB, 64, [(s + i) % 64 for i in range(4)], {"maxcalls": 900}),
+                ("HID2", 4, ABCD, 8, [(s + i) % 8 for i in range(3)], {}),
+                ("OPT", 3, AB, 1, [0], {})]
         rnd = [(600, dict(maxlen=5, share=1, named=2)), (300, dict(maxlen=6, share=1, named=0, monotone=1, seed_off=1)),
                (200, dict(maxlen=4, share=1, named=2, base=0, seed_off=2))]
     else:
         fams = [("CAT", 3, AB, 1, [0], {}),
                 ("F1", 3, AB, 48, [s % 48], {}),
                 ("F2", 3, AB, 24, [s % 24], {}),
-                ("NM", 3, AB, 24, [s % 24], {})]
+                ("NM", 3, AB, 24, [s % 24], {}),
+                ("HID2", 3, ABCD, 12, [s % 12], {}),
+                ("OPT", 3, AB, 4, [s % 4], {})]
         rnd = [(120, dict(maxlen=5, share=1, named=2))]
     parsefam.run_plan(r, {"props": ["C01"], "families": fams, "random": rnd})
     r.rule = ("model->code: every (grammar, input) of the explored family slices, root + every memoised nonterminal at every position "
